@@ -51,12 +51,142 @@ def can_do_matrix(report, drv):
                 report.case(("can_do", enabled, repr(action_roles), tr), nontrivial=enabled, sample={"action": action_roles, "token": tr, "allowed": got})
 
 
-def path_case(report, backend, save_roles, query_roles, ident_roles, keys, kind=1):
-    """one connection with the given identity (None = unauthenticated) tries EVENT and REQ"""
-    relay = Relay(backend, authentication={"enabled": True, "relay_urls": [URL], "actions": {"save": save_roles, "query": query_roles}})
+# ---------------------------------------------------------------------------------------------------------------------
+# PARTIAL configurations of the `actions` mapping
+# ---------------------------------------------------------------------------------------------------------------------
+# The property speaks of "the roles configured for the action"; the documented configuration lets an operator name only
+# the actions he wants to change: an action that the `actions` section does NOT name keeps its default — for the two
+# actions the relay itself enforces (save, query) that is the anonymous role 'a' alone — whatever else the section
+# names (the other action, read_dm, an action of a plug-in) and however the section is spelled (role letters as a
+# string, a list of letters, a Role member; action names as strings or Action members).  So the verdict for one action
+# is a function of THAT action's entry only.  A configuration is described symbolically (so that it is its own replay):
+#     {"save": letters | None, "query": letters | None, "extra": {other action: letters}, "spelling": str | list | enum,
+#      "section": False = no `actions` key at all}
+PARTIAL_SAVE = [None, "w", "ws", "a", ""]
+PARTIAL_QUERY = [None, "r", "ar", "s", ""]
+PARTIAL_EXTRA = [{}, {"read_dm": "s"}, {"zap": "rw", "read_dm": "r"}]
+SPELLINGS = ["str", "list", "enum"]
+# token role sets: None = unauthenticated, "{}" = an empty token; then explicit assignments — with and WITHOUT the anonymous
+# role (a pubkey that was given roles holds exactly those: 'w' alone, 'rws', or nothing at all)
+PARTIAL_TOKENS = [None, "{}", "", "a", "r", "w", "s", "rw", "rws", "aw", "arws"]
+PROBED_ACTIONS = ["save", "query", "read_dm", "zap"]
+DEFAULT_ROLES = {"save": "a", "query": "a"}           # the documented default of the two enforced actions
+
+
+def build_actions(cfg):
+    """the `actions` mapping of a symbolic configuration, in the requested spelling (None = no section at all)"""
+    from nostr_relay.auth import Action, Role
+
+    if cfg.get("section") is False:
+        return None
+    spelling = cfg.get("spelling", "str")
+    known_actions = {a.value for a in Action}
+    known_roles = {r.value for r in Role}
+
+    def key(name):
+        return Action(name) if spelling == "enum" and name in known_actions else name
+
+    def val(letters):
+        if spelling == "list":
+            return list(letters)
+        if spelling == "enum" and letters in known_roles:
+            return Role(letters)
+        return letters
+
+    entries = [(n, cfg.get(n)) for n in ("save", "query")] + sorted((cfg.get("extra") or {}).items())
+    return {key(n): val(r) for n, r in entries if r is not None}
+
+
+def needed_roles(cfg, action):
+    """the statement: the letters one of which a token must hold for `action` (None = the action is not restricted)"""
+    own = cfg.get(action) if action in ("save", "query") else (cfg.get("extra") or {}).get(action)
+    if own is not None:
+        return own
+    return DEFAULT_ROLES.get(action)
+
+
+def describe_config(cfg):
+    a = build_actions(cfg)
+    return "no `actions` section" if a is None else "actions = %r" % (a,)
+
+
+def partial_can_do_cell(report, drv, cfg, enabled, tr, action, memo=None):
+    """one cell: the real Authenticator (parse_options + can_do) for the configuration, one token, one action"""
+    from nostr_relay import auth
+
+    class _S:
+        async def get_auth_roles(self, pk):
+            return set("a")
+
+    options = {"enabled": enabled, "relay_urls": [URL]}
+    actions = build_actions(cfg)
+    if actions is not None:
+        options["actions"] = actions
+    a = auth.Authenticator(_S(), options)
+    token = None if tr is None else ({} if tr == "{}" else {"pubkey": "aa" * 32, "roles": set(tr), "now": 0})
+    got = asyncio.get_event_loop().run_until_complete(a.can_do(token, action))
+    eff = "a" if tr in (None, "{}") else tr
+    need = needed_roles(cfg, action)
+    mk = (enabled, need, "".join(sorted(eff)))
+    if memo is None or mk not in memo:
+        mv = drv.call({"op": "adm.canDo", "enabled": enabled, "action_roles": need, "token_roles": eff})
+        if memo is not None:
+            memo[mk] = mv
+    else:
+        mv = memo[mk]
+    payload = {"case": "can_do_partial", "config": cfg, "enabled": enabled, "token": tr, "action": action}
+    if bool(got) != mv:
+        report.correspondence_break("auth.Authenticator.parse_options+can_do", payload, got, mv)
+    want = True if (not enabled or need is None) else bool(set(need) & set(eff))
+    if bool(got) != want:
+        configured =(cfg.get(action) is not None) if action in ("save", "query") else action in (cfg.get("extra") or {})
+        report.property_failure(
+            "can_do(%s, %r) = %r with %s (authentication %s): %r is %s, so a token with roles %r must be %s" % (
+                "no token" if tr is None else ("an empty token" if tr == "{}" else "token roles %r" % sorted(tr)), action, got,
+                describe_config(cfg), "enabled" if enabled else "disabled", action,
+                ("configured with %r" % need) if configured else
+                ("not named, it keeps the default %r" % need if need is not None else "not restricted"),
+                sorted(eff), "allowed" if want else "refused"), payload, None)
+    return got, want, need
+
+
+def partial_can_do_matrix(report, drv, tier):
+    """every subset of {save, query} configured (x other actions named or not x spelling) x token role sets x probed action"""
+    memo = {}
+    configs = [{"save": None, "query": None, "extra": {}, "spelling": "str", "section": False}]
+    configs += [{"save": s, "query": q, "extra": x, "spelling": sp}
+                for s in PARTIAL_SAVE for q in PARTIAL_QUERY for x in PARTIAL_EXTRA for sp in SPELLINGS]
+    for cfg in configs:
+        named = [n for n in ("save", "query") if cfg[n] is not None]
+        partial = len(named) < 2 and (bool(named) or bool(cfg["extra"]))
+        # authentication disabled: everything is allowed whatever is configured — one spelling is enough for that half
+        for enabled in ((True, False) if cfg["spelling"] == "str" else (True,)):
+            for tr in PARTIAL_TOKENS:
+                for action in PROBED_ACTIONS:
+                    got, want, need = partial_can_do_cell(report, drv, cfg, enabled, tr, action, memo)
+                    by_default = enabled and action in DEFAULT_ROLES and cfg[action] is None
+                    if by_default and partial and not want:
+                        report.count("partial_can_do_refused_by_default_roles")
+                    report.case(("can_do_partial", enabled, repr(cfg), tr, action), nontrivial=enabled and (by_default or not want),
+                                sample={"config": describe_config(cfg), "token": tr, "action": action, "allowed": bool(got)})
+        report.count("partial_configs_" + ("partial" if partial else ("full" if len(named) == 2 else "empty")))
+
+
+def path_case(report, backend, save_roles, query_roles, ident_roles, keys, kind=1, extra=None, spelling="str"):
+    """one connection with the given identity (None = unauthenticated) tries EVENT and REQ.
+    save_roles / query_roles None = the action is not named in the `actions` section (it keeps its default, the anonymous
+    role); extra = other actions the section names; spelling: see build_actions"""
+    cfg = {"save": save_roles, "query": query_roles, "extra": extra or {}, "spelling": spelling}
+    relay = Relay(backend, authentication={"enabled": True, "relay_urls": [URL], "actions": build_actions(cfg)})
     try:
         sk = keys[0]
-        payload = {"backend": backend, "save": save_roles, "query": query_roles, "identity": ident_roles, "kind": kind}
+        payload = {"backend": backend, "save": save_roles, "query": query_roles, "identity": ident_roles, "kind": kind,
+                   "extra": extra or {}, "spelling": spelling}
+        partial = save_roles is None or query_roles is None
+        # from here on: the letters the statement asks for, and how to say so in a message
+        save_roles, query_roles = needed_roles(cfg, "save"), needed_roles(cfg, "query")
+        save_says = repr(save_roles) if cfg["save"] is not None else "%r: not named in %s, so the default" % (save_roles, describe_config(cfg))
+        query_says = repr(query_roles) if cfg["query"] is not None else "%r: not named in %s, so the default" % (query_roles, describe_config(cfg))
         if ident_roles is not None:
             relay.set_roles(sk.public_key.hex(), ident_roles)
         c = Conn(relay)
@@ -89,8 +219,8 @@ def path_case(report, backend, save_roles, query_roles, ident_roles, keys, kind=
         else:
             if oks[0][2] or stored or pushed:
                 report.property_failure(
-                    "%s: a connection with roles %r (save needs %r) got its kind-%d event %s" % (
-                        backend, sorted(eff), save_roles, kind,
+                    "%s: a connection with roles %r (save needs %s) got its kind-%d event %s" % (
+                        backend, sorted(eff), save_says, kind,
                         "acknowledged" if oks[0][2] else ("stored" if stored else "broadcast")), payload, None)
             elif "restricted" not in str(oks[0][3]):
                 report.property_failure("%s: refusal does not say 'restricted': %r" % (backend, oks[0]), payload, None)
@@ -112,8 +242,8 @@ def path_case(report, backend, save_roles, query_roles, ident_roles, keys, kind=
                 report.property_failure("%s: an authorised REQ was not served: %r" % (backend, fr[:3]), payload, None)
         else:
             if got_events or mine_open:
-                report.property_failure("%s: a connection with roles %r (query needs %r) was served %d events / holds a subscription"
-                                        % (backend, sorted(eff), query_roles, len(got_events)), payload, None)
+                report.property_failure("%s: a connection with roles %r (query needs %s) was served %d events / holds a subscription"
+                                        % (backend, sorted(eff), query_says, len(got_events)), payload, None)
             elif not any("restricted" in str(x[1]) for x in notices):
                 report.property_failure("%s: refused REQ not answered with a 'restricted' NOTICE: %r" % (backend, fr), payload, None)
             # nothing may arrive later either (a refused REQ must not leave a live subscription behind)
@@ -125,9 +255,14 @@ def path_case(report, backend, save_roles, query_roles, ident_roles, keys, kind=
                 report.property_failure("%s: events were pushed to a connection whose REQ had been refused" % backend, payload, None)
         c.close()
         obs.close()
-        report.case(("path", backend, save_roles, query_roles, ident_roles, kind), nontrivial=not (allowed and q_allowed),
+        report.case(("path", backend, cfg["save"], cfg["query"], ident_roles, kind, repr(cfg["extra"]), spelling),
+                    nontrivial=not (allowed and q_allowed),
                     sample={**payload, "event_ok": oks[0][2] if oks else None, "req_events": len(got_events)})
         report.count("paths_" + backend)
+        if partial:
+            report.count("paths_partial_config_" + backend)
+            if ("a" not in eff) and not (allowed and q_allowed):
+                report.count("paths_partial_refused_by_default_roles_" + backend)
     finally:
         relay.close()
 
@@ -905,10 +1040,38 @@ def run(report, tier, seed):
         "author / outsider, kinds 1, 30000, 10002) and one never stored: served iff stored and the anonymous role may query and "
         "the validator lets it through, else no 200 and nothing of the event in the body; the same for a REQ by ids of an "
         "unauthenticated connection; "
+        "PARTIAL configurations of the actions section: every combination of save {not named, w, ws, a, ''} x query {not named, "
+        "r, ar, s, ''} x other actions named {none, read_dm, zap + read_dm} x spelling {letters, list of letters, Role / Action "
+        "members} and no section at all, x token {none, empty, '', a, r, w, s, rw, rws, aw, arws} x probed action {save, query, "
+        "read_dm, zap} on the real Authenticator (parse_options + can_do) against the statement 'the verdict for an action "
+        "depends on that action's entry only; save / query not named keep the anonymous role, other actions not named are not "
+        "restricted'; and through start_client on both backends with only save, only query, or only another action named, "
+        "for identities with and without the anonymous role (unauthenticated, a, aw, w, r, s, rws); "
         "non-trivial = something must be refused")
     report.assumptions += ["identities are established with real NIP-42 answers; the per-object hook evaluate_target is the shipped no-op"]
     try:
         can_do_matrix(report, drv)
+        partial_can_do_matrix(report, drv, tier)
+        # partial configurations through start_client.  Which action is left out x who asks: identities WITHOUT the
+        # anonymous role (explicit assignments) are the ones an un-named action must refuse; the others it must serve.
+        # An rng of its own (derived from the seed), so that the programs of the older families are drawn as before
+        prng = random.Random(seed * 1000003 + 14)
+        only_save, only_query, neither = [("w", None), ("ws", None)], [(None, "r"), (None, "ar")], [(None, None)]
+        # (the EMPTY assignment is exercised on the Authenticator only: through start_client such a pubkey cannot be observed,
+        # its connection is closed — code 1013 — by its own AUTH: should_throttle takes max() over the roles of the token)
+        lacking, holding = ["w", "r", "s", "rws"], [None, "a", "aw"]
+        if tier == "quick":
+            # both directions with an identity that may do the named action and lacks the anonymous role, the section that
+            # names only a third action, and a few drawn from the whole product; spelling and event kind rotate
+            partial_cases = [("w", None, prng.choice(["w", "rws"]), {}), (None, "r", prng.choice(["r", "rws"]), {}),
+                             (None, None, prng.choice(lacking), {"read_dm": "s"}),
+                             prng.choice(only_save) + (prng.choice(holding), prng.choice(PARTIAL_EXTRA)),
+                             prng.choice(only_query) + (prng.choice(lacking + holding), prng.choice(PARTIAL_EXTRA)),
+                             prng.choice(only_save + only_query) + (prng.choice(lacking), {})]
+        else:
+            partial_cases = [(s, q, i, x) for (s, q) in only_save + only_query + neither for i in lacking + holding
+                             for x in PARTIAL_EXTRA if (s, q) != (None, None) or x]
+        partial_cases = [(s, q, i, x, SPELLINGS[n % 3], [1, 20001, 30000][(n // 3 + n) % 3]) for n, (s, q, i, x) in enumerate(partial_cases)]
         combos = [("w", "a"), ("w", "r"), ("ws", "rw"), ("a", "a")]
         # an action configured with the empty role set admits nobody, whoever asks
         closed = [("", "a"), ("w", ""), ("", "")]
@@ -927,6 +1090,10 @@ def run(report, tier, seed):
                     path_case(report, backend, s, q, i, keys, kind=20001)
                 if tier != "quick" or n % 4 == 1:
                     path_case(report, backend, s, q, i, keys, kind=30000)
+            for (s, q, i, x, sp, kind) in partial_cases:
+                path_case(report, backend, s, q, i, keys, kind=kind, extra=x, spelling=sp)
+                if tier != "quick" and kind != 1:
+                    path_case(report, backend, s, q, i, keys, kind=1, extra=x, spelling=sp)
             output_validator_case(report, backend, keys)
             # the HTTP read path over enabled x query roles (also empty / not configured) x output validator present or not.
             # quick: every query configuration with authentication enabled (the validator alternating, its phase drawn
@@ -983,14 +1150,17 @@ def replay(report, path):
     try:
         for it in (data.get("violations") or []):
             r = it.get("replay") or {}
-            if r.get("case") == "http":
+            if r.get("case") == "can_do_partial":
+                partial_can_do_cell(report, drv, r["config"], r["enabled"], r["token"], r["action"])
+            elif r.get("case") == "http":
                 http_read_case(report, r["backend"], r["enabled"], r["query"], r["validator"], keys)
             elif r.get("case") == "role-forgery":
                 role_forgery_session(report, r["backend"], r["save"], r["query"], r["program"], keys)
             elif r.get("case") == "identity-session":
                 identity_session(report, r["backend"], r["save"], r["query"], r["program"], keys)
             elif "save" in r:
-                path_case(report, r["backend"], r["save"], r["query"], r["identity"], keys, kind=r.get("kind", 1))
+                path_case(report, r["backend"], r["save"], r["query"], r["identity"], keys, kind=r.get("kind", 1),
+                          extra=r.get("extra"), spelling=r.get("spelling", "str"))
             elif r.get("case") == "output_validator":
                 output_validator_case(report, r["backend"], keys)
     finally:
